@@ -296,7 +296,7 @@ public:
 				Step s{.kind = "reg", .width = w(a), .a = a}; if (o.fullyDefined || rng.chance(2, 3)) s.str = constStr(std::max<size_t>(1, w(a)));
 				if (rng.chance(1, 3)) s.b = genCond(); add(s);
 			} else if (c < 96 && o.regs) { // counter / accumulator with feedback: r = reg(r op x, rst), optionally under a condition
-				int x = pickVec(); Step s{.kind = "acc", .width = w(x), .a = x, .str = constStr(w(x))}; s.k = rng.below(3); if (rng.chance(1, 2)) s.b = genCond(); add(s);
+				int x = pickVec(); Step s{.kind = "acc", .width = w(x), .a = x, .str = constStr(w(x))}; s.k = rng.below(3); if (rng.chance(1, 2)) s.b = genCond(); if (rng.chance(1, 3)) s.c = genCond(); s.k2 = rng.below(2); add(s);
 			} else { // named pass-through (used by condition analysis through signals)
 				bool isBit = rng.chance(1, 2); int a = isBit ? pickBit() : pickVec(); Step s{.kind = "name", .width = w(a), .a = a, .str = "sig_" + std::to_string(r.steps.size())}; add(s);
 			}
@@ -440,11 +440,18 @@ inline Built build(const Recipe &r, const Decoration &deco = {}) {
 			UInt acc = BitWidth(s.width); UInt rv = constU(s.str);
 			if (deco.attribs && drng.chance(1, 2)) { SignalAttributes a; a.maxFanout = 4 + drng.below(8); rv = attribute(rv, a); }
 			UInt next = acc;
-			{
+			if (s.k2 == 1 && s.b >= 0) { // the register is held on the condition-TRUE side of its feedback mux: next = new; IF (cond) next = acc;
+				if (s.k == 0) next = acc + vec(s.a); else if (s.k == 1) next = acc ^ vec(s.a); else next = vec(s.a);
+				ConditionalScope sc(bit(s.b));
+				next = acc;
+			} else {
 				std::optional<ConditionalScope> sc; if (s.b >= 0) sc.emplace(bit(s.b));
 				if (s.k == 0) next = acc + vec(s.a); else if (s.k == 1) next = acc ^ vec(s.a); else next = vec(s.a);
 			}
-			acc = reg(next, rv);
+			{
+				std::optional<EnableScope> en; if (s.c >= 0) en.emplace(bit(s.c)); // a clock enable of its own (foldRegisterMuxEnableLoops has to AND it)
+				acc = reg(next, rv);
+			}
 			vals[i] = acc;
 		}
 		else if (k == "name") { if (s.width == 0) { Bit b = bit(s.a); b.setName(s.str); vals[i] = b; } else { UInt v = vec(s.a); v.setName(s.str); vals[i] = v; } }
